@@ -368,6 +368,27 @@ def random_config_specs(tier, seed):
     return out
 
 
+def sorted_specs():
+    """declarations carrying the documented `sorted(...)` requirement and meeting it: the requirement is about the
+    DECLARATION order, the derived behaviour must be the same as without it (tables are in value order)"""
+    out = []
+    # (repr, [(ident, disc)] in declaration order, which orders hold)
+    decls = [
+        ("i8", [("High", 2), ("Low", -3), ("Mid", 0), ("Top", 100)], "name"),              # names ascending, values not
+        ("u16", [("Alpha", 9), ("Beta", 2), ("Delta", 1), ("Gamma", 0), ("Omega", 3)], "name"),
+        ("i32", [("Zed", -5), ("Yak", -4), ("Xi", 0), ("Web", 7)], "value"),               # values ascending, names not
+        ("u8", [("Ant", 0), ("Bee", 1), ("Cat", 2), ("Dog", 200)], "name, value"),
+        ("i64", [("B", 5), ("C", 4), ("D", 3), ("E", 2), ("F", 1), ("G", 0)], "name"),     # gapless, reversed values
+    ]
+    for r, d, what in decls:
+        for cname in ("ALL_TABLE", "ALL_MATCH", "ALL_AUTO"):
+            vs = [Variant(i, x, str(x)) for (i, x) in d]
+            tag = what.replace(", ", "_")
+            out.append(EnumSpec("i_%s_sorted_%s_%s" % (r, tag, cname.lower()), r, vs, list(CFG[cname]) + ["sorted(%s)" % what],
+                                ident="En", tags={"I", "sorted", cname}))
+    return out
+
+
 def instance_corpus(tier="quick", seed=1, reprs=None):
     rng = random.Random(seed)
     out = []
@@ -420,6 +441,7 @@ def instance_corpus(tier="quick", seed=1, reprs=None):
                                  style=rng.choice(["plain", "special", "dups"]), rng=random.Random(rng.random())))
     if reprs is None or len(reprs) == len(REPRS):
         out += random_config_specs(tier, seed)
+        out += sorted_specs()
     if tier != "quick":
         for r in ("u16", "i32", "u64"):
             base = 0 if r.startswith("u") else -500
